@@ -228,6 +228,7 @@ def cache_job(a):
             kwd = dict(keymap=km, tol=tol, deep=deep)
             if nm not in ('no_cache', 'inf_cache'): kwd['maxsize'] = 50
             f = D(**kwd)(target)
+            G = klepto.keygen(keymap=km, tol=tol, deep=deep)(target)
             base = r.choice([1.234, 2.5, 0.125, 2.675, 1.005, 3.0])
             eqtypes = (k + ci) % 4 == 3          # stratum: ==-equal arguments of different types back to back (3.0, 3, 3.0, ...)
             if eqtypes: base = r.choice([3.0, 1.0])
@@ -260,6 +261,19 @@ def cache_job(a):
                     continue
                 try:
                     kk = f.key(*args, **kw)
+                    # the public key generator `klepto.keygen` with the same settings: same key, without evaluating; `.key()` repeats
+                    # it, `.valid()` judges the call, `.call()` evaluates the function on the ORIGINAL arguments
+                    n1 = len(SEEN)
+                    gk = G(*args, **kw); gk2 = G.key(); gv = G.valid()
+                    if len(SEEN) != n1 or repr(gk) != repr(kk) or repr(gk2) != repr(kk) or gv is not True:
+                        viol.append(dict(prop='C12', sig=dict(kind='keygen-differs-from-decorator', tol=tol is not None, evaluated=len(SEEN) != n1, valid=bool(gv)),
+                                         msg='klepto.keygen(tol=%r, deep=%r, %s)(target)%r %r = %.80r, .key() = %.80r, .valid() = %r, evaluations %d; %s.%s.key = %.80r' % (
+                                             tol, deep, kmk, args, kw, gk, gk2, gv, len(SEEN) - n1, mod, nm, kk)))
+                    if ci % 3 == 0:
+                        G.call(); sx, sy, srest, skw = SEEN.pop()
+                        if sx is not (args[0] if args else kw['x']) or not all(a_ is b_ for a_, b_ in zip(srest, args[2:])):
+                            viol.append(dict(prop='C12', sig=dict(kind='function-saw-rounded-arguments', dec='klepto.keygen'),
+                                             msg='klepto.keygen(tol=%r).call(): the function received %r instead of the original %r' % (tol, (sx, sy, srest, skw), (args, kw))))
                     before = set(f.__cache__())
                     f(*args, **kw)
                     cache = f.__cache__()
